@@ -199,6 +199,13 @@ def graph_fixed():
     leaf = add(Item("FgDotLeaf", "FgDotLeaf", "named", fields=[Field("fg_dl", prim("u8"))], export_to="fgdot/.generated/"))
     hid = add(Item("FgDotHidden", "FgDotHidden", "named", fields=[Field("fg_dh", prim("u8"))], export_to="fgdot/.hidden.ts"))
     add(Item("FgDotRoot", "FgDotRoot", "named", fields=[Field("fg_leaf", user(leaf)), Field("fg_hid", Ty("vec", args=[user(hid)]))], export_to="fgdot/"))
+    # dependencies whose files differ only in letter case (two files wherever file names are case-sensitive)
+    c1 = add(Item("FgCaseId", "FgCaseId", "named", fields=[Field("fg_c1", prim("u8"))], export_to="fgcase/"))
+    c2 = add(Item("FgCaseID", "FgCaseID", "named", fields=[Field("fg_c2", prim("u8"))], export_to="fgcase/"))
+    c3 = add(Item("FgCaseUnit", "FgCaseUnit", "named", fields=[Field("fg_c3", prim("u8"))], export_to="fgcase/geo/Unit.ts"))
+    c4 = add(Item("FgCaseUnit2", "FgCaseUnit2", "named", fields=[Field("fg_c4", prim("u8"))], export_to="fgcase/Geo/UNIT.ts"))
+    add(Item("FgCaseHolder", "FgCaseHolder", "named", fields=[Field("fg_a", user(c1)), Field("fg_b", user(c2)), Field("fg_c", user(c3)), Field("fg_d", user(c4))],
+             export_to="fgcase/"))
     # directory names that need escaping inside the import statement's string literal
     qd = add(Item("FgQuoteDep", "FgQuoteDep", "named", fields=[Field("fg_q", prim("u8"))], export_to='fg"quo"te/'))
     bd = add(Item("FgBackslashDep", "FgBackslashDep", "named", fields=[Field("fg_b", prim("u8"))], export_to="fgback\\slash/n.ts"))
